@@ -257,6 +257,8 @@ pub fn main() {
     let (mut effective_purges, mut effective_purge_failures) = (0u64, 0u64);
     let mut rt: Option<(tokio::runtime::Runtime, Clock)> = None;
     let mut in_rt = 0u64;
+    let mut tool_errors: Vec<String> = vec![];
+    let mut unreplayable = 0u64;
 
     for_each_payload(reader, passthrough.as_deref(), |tag, e| {
         if tag == "FROM" {
@@ -295,8 +297,14 @@ pub fn main() {
         let n = sum.evaluations;
         let r = runtime.block_on(run_edge(clock, scale, &keys, pre, &e, n));
         if let Some(err) = r.tool_error {
-            eprintln!("tool error on edge {n}: {err}: {}", e["op"]);
-            std::process::exit(2);
+            // the real pre-state may already differ from the model's (an earlier edge drifted, and was judged by the
+            // oracle there); the prediction of this edge then does not apply.  Decided at the end: with no violation
+            // anywhere this is a tool error.
+            if tool_errors.len() < 5 {
+                tool_errors.push(format!("edge {n}: {err}: {}", e["op"]));
+            }
+            unreplayable += 1;
+            return;
         }
         let outcome = e["op"]["outcome"].as_str().unwrap_or("");
         if outcome == "crash-mid" || kind == "restart" {
@@ -354,8 +362,14 @@ pub fn main() {
     sum.set("failed_storage_edges", failed_storage_edges);
     sum.set("effective_purges", effective_purges);
     sum.set("effective_purge_failures", effective_purge_failures);
+    sum.set("unreplayable_edges", unreplayable);
+    sum.set("unreplayable_samples", json!(tool_errors));
     sum.write(&out);
-    if missing_from > 0 {
+    if (unreplayable > 0 || missing_from > 0) && sum.violations.is_empty() {
+        eprintln!("tool error: {missing_from} pre-states never reached, {unreplayable} edges could not be replayed");
+        for t in &tool_errors {
+            eprintln!("tool error: {t}");
+        }
         std::process::exit(2);
     }
 }
